@@ -378,3 +378,32 @@ Fixpoint run_from (qf : store -> expr -> Z -> vector) (s : state) (ops : list op
 
 Definition init : state := mkState [] [].
 Definition run (qf : store -> expr -> Z -> vector) (ops : list op) : state * list event := run_from qf init ops.
+
+(* ------------------------------------------------------------------ dependency analysis, batches
+   buildDependencyMap (rules/group.go) for rules whose expression has one vector selector with
+   a metric name: a rule depends on every EARLIER rule of the group whose name the selector's
+   name matcher matches; ruleDependencyController.AnalyseRules stores that on the rules and
+   concurrentRuleEvalController.SplitGroupIntoBatches (rules/manager.go) orders the batches:
+   all rules without dependencies (concurrently), then one by one the rules with dependencies
+   and dependents, then all rules with dependencies but without dependents (concurrently). *)
+Definition dep_on (r o : rule) : bool := e_name (r_expr r) =? r_name o.
+
+Definition has_dependency (rules : list rule) (i : nat) : bool :=
+  match nth_error rules i with
+  | Some r => existsb (dep_on r) (firstn i rules)
+  | None => false
+  end.
+
+Definition has_dependent (rules : list rule) (j : nat) : bool :=
+  match nth_error rules j with
+  | Some o => existsb (fun r => dep_on r o) (skipn (S j) rules)
+  | None => false
+  end.
+
+Definition one_batch (b : list nat) : list (list nat) := match b with [] => [] | _ => [b] end.
+
+Definition split_batches (rules : list rule) : list (list nat) :=
+  let idx := seq 0 (length rules) in
+  one_batch (filter (fun i => negb (has_dependency rules i)) idx)
+  ++ map (fun i => [i]) (filter (fun i => has_dependency rules i && has_dependent rules i) idx)
+  ++ one_batch (filter (fun i => has_dependency rules i && negb (has_dependent rules i)) idx).
